@@ -15,13 +15,16 @@ type c14Deferred struct {
 	closeDefers []*c14Node // defer statements of the producer's own activation that close the output channel
 	doneDefers  []*c14Node // … that release the wait group
 	closeCalls  map[*ast.CallExpr]bool
+	signalCalls map[*ast.CallExpr]bool // the calls that signal completion
+	// signalNotLast: a deferred function that goes on (closes the output channel) after it has signalled completion
+	signalNotLast *c14Node
 }
 
 func (m *c14Model) producerDefers() *c14Deferred {
 	if m.pdefers != nil {
 		return m.pdefers
 	}
-	pd := &c14Deferred{closeCalls: map[*ast.CallExpr]bool{}}
+	pd := &c14Deferred{closeCalls: map[*ast.CallExpr]bool{}, signalCalls: map[*ast.CallExpr]bool{}}
 	m.pdefers = pd
 	pg := m.pg
 	if pg == nil {
@@ -30,9 +33,7 @@ func (m *c14Model) producerDefers() *c14Deferred {
 	isClose := func(g *c14Graph, n *c14Node, ce *ast.CallExpr) bool {
 		return builtinName(n.ctx.fn.info, ce) == "close" && len(ce.Args) == 1 && m.isField(g, g.canon(n.ctx, ce.Args[0], n), m.fOut)
 	}
-	isDone := func(g *c14Graph, n *c14Node, ce *ast.CallExpr) bool {
-		return m.isMethodOn(g, g.canon(n.ctx, ce, n), m.fWG, "sync.WaitGroup", "Done")
-	}
+	isDone := func(g *c14Graph, n *c14Node, ce *ast.CallExpr) bool { return m.isSignal(g, n, ce) }
 	for _, d := range pg.defers {
 		if d.ctx != pg.root || len(pg.byNode[d]) == 0 {
 			continue // a defer inside a called function runs when that function returns, not when the goroutine ends
@@ -45,6 +46,7 @@ func (m *c14Model) producerDefers() *c14Deferred {
 		}
 		if isDone(pg, d, dc) {
 			pd.doneDefers = append(pd.doneDefers, d)
+			pd.signalCalls[dc] = true
 			continue
 		}
 		// a deferred literal, method, function or local closure: explore it
@@ -78,6 +80,17 @@ func (m *c14Model) producerDefers() *c14Deferred {
 		dones := m.callsWhere(dg, func(n *c14Node, ce *ast.CallExpr) bool { return isDone(dg, n, ce) })
 		for _, c := range closes {
 			pd.closeCalls[c.call] = true // accounted for as a close site; whether it always runs is decided below
+		}
+		var doneNodes, closeNodes []*c14Node
+		for _, c := range dones {
+			pd.signalCalls[c.call] = true
+			doneNodes = append(doneNodes, c.n)
+		}
+		for _, c := range closes {
+			closeNodes = append(closeNodes, c.n)
+		}
+		if len(doneNodes) > 0 && dg.reach(c14Succs(dg.statesOf(doneNodes...), nil), nil, nil).hasNode(closeNodes...) {
+			pd.signalNotLast = d
 		}
 		if onEveryPath(closes) {
 			pd.closeDefers = append(pd.closeDefers, d)
